@@ -84,14 +84,14 @@ def run(ctx):
     else:
         rng = random.Random(ctx.seed * 32452843 + 5)
         cases = []
-        for k in range(500 if ctx.tier == "quick" else 12000):
+        for k in range(12000 if ctx.tier == "quick" else 150000):
             uni, root = gen_universe(rng, tables, soft_only=(k % 3 == 0))
             cases.append({"universe": uni, "root": root, "softonly": k % 3 == 0})
     casef = os.path.join(wdir, "cases.ndjson")
     obsf = os.path.join(wdir, "obs.ndjson")
     vlib.write_ndjson(casef, cases)
     vlib.run_harness(vh, ["maven", tablesf, casef, obsf], timeout=3000)
-    states, gen, rej, lines = vlib.tlc_chunks("MavenTrace", os.path.join(vlib.SPEC, "MavenTrace.cfg"), wdir, obsf, 400 if ctx.tier == "quick" else 2000,
+    states, gen, rej, lines = vlib.tlc_chunks("MavenTrace", os.path.join(vlib.SPEC, "MavenTrace.cfg"), wdir, obsf, 2000 if ctx.tier == "quick" else 4000,
                                               "MavenTrace", parallel=4, workers=4)
     verdict = vlib.Verdict(pid)
     resolved = nontrivial = errs = allsoft = 0
